@@ -167,6 +167,7 @@ class ReaderHarness(object):
         ikw = dict(self.ikw)
         ikw.setdefault('while_bound', max(3, len(script) + 2))
         I = Interp(self.P, **ikw)
+        I.open_empty_class_containers = getattr(self, 'open_hooks', ())
         st = {'k': 0, 'script': script, 'content_calls': [], 'header_values': []}
         I.k1 = st
         header_rxs = {rx for _, rx in R.header_apps}
@@ -221,8 +222,12 @@ class ReaderHarness(object):
                 st['header_values'].append(h)
                 I_.emit('k1-header', node, {'index': i, 'script': script[i]})
                 return (h, False)
-            if eof_after:
+            if eof_after and i == len(script):
+                if getattr(self, 'eof_tail', 'empty') == 'empty':
+                    return (b'', True)          # the file ends right after the last section
                 return (Unk('tail', kinds=['bytes'], taint=['INPUT']), True)
+            # reading on after end of file: nothing more to learn on this path
+            I_.emit('cut', node, {'why': 'read after EOF'})
             raise PathCut()
         if self.stub_readahead:
             if R.readahead_fn is None:
